@@ -93,7 +93,10 @@ _scratch_owner = None
 def scratch_root() -> str:
     global _scratch, _scratch_owner
     if _scratch is None or _scratch_owner != os.getpid() and not os.path.isdir(_scratch):
-        base = os.environ.get("VERIF_SCRATCH") or tempfile.gettempdir()
+        base = os.environ.get("VERIF_SCRATCH")
+        if not base:
+            # tmpfs when available: renders write ~25 small files each
+            base = "/dev/shm" if os.path.isdir("/dev/shm") and os.access("/dev/shm", os.W_OK) else tempfile.gettempdir()
         _scratch = tempfile.mkdtemp(prefix="naunet-verif-", dir=base)
         _scratch_owner = os.getpid()
         atexit.register(_cleanup_scratch, _scratch, os.getpid())
